@@ -14,6 +14,7 @@ EXPLANATION = (
     "what is written to the connection, every arm (in particular Err) writes a response; SRV-5 in a read loop that "
     "accumulates into a buffer, the request-complete test scans the whole received prefix (start 0, or the "
     "pre-increment count minus >= 3), so a header terminator split over two reads is still found."
+    ' SRV-7: no loop/while awaits connect() (bounded connection attempts per request).'
 )
 NOT_DECIDED = "timing (answer within a deadline), tokio runtime behaviour, errors of the listener socket itself"
 ASSUMPTIONS = ["a read of 0 bytes from tokio AsyncReadExt::read means EOF (or a full destination buffer)",
